@@ -166,6 +166,16 @@ func main() {
 	switch {
 	case hasPrefix(b, "exit"):
 		syscall.Exit(3)
+	case hasPrefix(b, "drop"):
+		// hangs up without ever registering, and stays alive: closes every descriptor it was
+		// handed (the pre-connected socket among them), then sleeps
+		for fd := 3; fd < 64; fd++ {
+			syscall.Close(fd)
+		}
+		for {
+			ts := syscall.Timespec{Sec: 3600}
+			syscall.Nanosleep(&ts, nil)
+		}
 	case hasPrefix(b, "hang"):
 		for {
 			ts := syscall.Timespec{Sec: 3600}
